@@ -33,25 +33,17 @@ INT32_MIN, INT32_MAX, UINT32_MAX = -2 ** 31, 2 ** 31 - 1, 2 ** 32 - 1
 # when the declaration is in the class AND the real code's output is exactly what the model of
 # the defect predicts — anything else is still reported as a violation.
 PENDING_FINDINGS = [
-    {'key': 'flexible-array-member:sized-as-pointer',
-     'what': 'a trailing flexible array member (GIR <array> without fixed-size/length, element c:type not a '
-             'pointer — what g-ir-scanner writes for `T data[];`) is laid out as a pointer: the struct gets a '
-             'positive but wrong size and the member a wrong offset instead of the C layout or "unknown" '
-             '(girparser.c start_type: is_pointer stays TRUE unless fixed-size is given)'},
     {'key': 'non-introspectable-by-value-field:sized-as-pointer',
      'what': 'a field marked introspectable="0" whose C type is not pointer-sized (e.g. `long double`, as '
              'g-ir-scanner writes it) is laid out as a gpointer: wrong positive size/offsets instead of '
              '"unknown" (girparser.c start_field replaces the type by gpointer)'},
-    {'key': 'inline-callback-field-in-union-or-boxed:compiler-aborts',
-     'what': 'a <union> (or <glib:boxed>) with an inline callback field (`union { void (*cb)(void); ... }`, written by '
-             'g-ir-scanner as <field><callback/></field>) makes g-ir-compiler abort with "Caught NULL node": '
-             'girparser.c start_function accepts <callback> only in STATE_CLASS_FIELD / STATE_STRUCT_FIELD, so the '
-             'field is left without a type; no typelib is written for the whole namespace'},
 ]
-K_FLEX, K_NONINTRO, K_UNIONCB = [p['key'] for p in PENDING_FINDINGS]
-# repaired in /repo (260587f field offsets that do not fit 16 bits are stored as unknown; 1fcf299 an enum with a
-# negative member and a member above G_MAXINT gets gint64): their witnesses stay in corpus/C08 as regressions and
-# are judged like everything else, with no suppression.
+(K_NONINTRO,) = [p['key'] for p in PENDING_FINDINGS]
+# repaired in /repo: 260587f (field offsets that do not fit 16 bits are stored as unknown), 1fcf299 (an enum with a
+# negative member and a member above G_MAXINT gets gint64), b00e44e (a function pointer member of a union / boxed
+# is a gpointer field instead of killing the compiler), 30f920b (a flexible array member is not a pointer: the
+# structure is recorded unknown).  Their witnesses stay in corpus/C08 as regressions and are judged like everything
+# else, with no suppression.
 
 # ---------------------------------------------------------------------------------------------
 # vocabulary: GIR basic type name -> C spelling used in the gcc translation unit.  The C side is
@@ -120,7 +112,8 @@ def read_basic_types(ctx):
 #   {'k':'basic','n'}  {'k':'ptr','to': 'void'|'utf8'|'filename'|'basic:<n>'|'type:<name>'|'glist'}
 #   {'k':'array','n':int,'of':T}  {'k':'iface','name'}  {'k':'cb'}  {'k':'bits','n','bits'}
 #   {'k':'lenarray','of':basic name}       unsized <array> with pointer c:type  (a pointer)
-#   {'k':'flex','of':basic name}           unsized <array>, non-pointer c:type  (`T f[];`)
+#   {'k':'flex','of':basic name}           unsized <array>, no c:type  (`T f[];`): not a pointer, unknown size
+#   {'k':'strv'}                           unsized <array c:type="gchar**"> without length  (a pointer)
 #   {'k':'nonintro','c': C type}           introspectable="0" field, C type given
 #   {'k':'barecb'}                         <callback> directly inside the record (old GIR style)
 #   {'k':'void'} / {'k':'self'} / {'k':'unresolved'}   fields that make g-ir-compiler stop
@@ -169,6 +162,8 @@ def gir_type(b, t):
             t['of'], t['of'], t['of'])
     if k == 'flex':
         return '<array zero-terminated="0"><type name="%s" c:type="%s"/></array>' % (t['of'], t['of'])
+    if k == 'strv':
+        return '<array c:type="gchar**"><type name="utf8" c:type="gchar*"/></array>'
     if k == 'void':
         return '<type name="none" c:type="void"/>'
     if k == 'unresolved':
@@ -282,10 +277,16 @@ def model_type(b, basic, t):
             return {'k': 'basic', 'tag': 17, 'ptr': True}
         _kind, n = to.split(':', 1)
         return model_named(b, basic, n, True)
+    # C array typed fields: the attributes start_type looks at (Model.fieldArrayTy decides is_pointer)
     if k == 'array':
-        return {'k': 'array', 'ptr': False, 'has_size': True, 'size': t['n'], 'elem': model_type(b, basic, t['of'])}
+        return {'k': 'fieldarray', 'has_size': True, 'size': t['n'], 'has_length': False, 'ctype_ptr': False,
+                'elem': model_type(b, basic, t['of'])}
     if k in ('lenarray', 'flex'):
-        return {'k': 'array', 'ptr': True, 'has_size': False, 'size': -1, 'elem': model_named(b, basic, t['of'], False)}
+        return {'k': 'fieldarray', 'has_size': False, 'size': -1, 'has_length': k == 'lenarray', 'ctype_ptr': k == 'lenarray',
+                'elem': model_named(b, basic, t['of'], False)}
+    if k == 'strv':
+        return {'k': 'fieldarray', 'has_size': False, 'size': -1, 'has_length': False, 'ctype_ptr': True,
+                'elem': model_basic(basic, 'utf8')}
     if k in ('iface', 'self'):
         return model_named(b, basic, t['name'], False)
     if k == 'void':
@@ -313,7 +314,8 @@ def model_nodes(b, basic):
             for m in d['members']:
                 k = m['t']['k']
                 if k == 'cb':
-                    ms.append({'m': 'field', 'name': m['name'], 'cb': True, 'ty': {'k': 'basic', 'tag': 0, 'ptr': False}})
+                    # <field><callback/></field>: Model.inlineCallbackField decides by the container
+                    ms.append({'m': 'cbfield', 'name': m['name']})
                 elif k == 'barecb':
                     ms.append({'m': 'callback', 'name': m['name']})
                 else:
@@ -352,6 +354,8 @@ def c_decl(b, t, fname):
         return '%s *%s' % (t['of'], fname)
     if k == 'flex':
         return '%s %s[]' % (t['of'], fname)
+    if k == 'strv':
+        return 'gchar **%s' % fname
     if k == 'nonintro':
         c = t['c']
         if c.endswith('*'):
@@ -422,7 +426,7 @@ def member_flags(b, t, memo, depth=0):
         if n in b.by_name:       # alias
             return decl_flags(b, resolve_alias(b, n), memo, depth + 1) if resolve_alias(b, n) in b.by_name else set()
         return set()
-    if k in ('ptr', 'cb', 'lenarray'):
+    if k in ('ptr', 'cb', 'lenarray', 'strv'):
         return set()
     if k == 'array':
         fl = set(member_flags(b, t['of'], memo, depth))
@@ -553,15 +557,11 @@ class Gen(object):
             members = []
             for j in range(nm):
                 t = self.member_type(level, kind)
-                if kind in ('union', 'boxed') and t['k'] == 'cb':
-                    # inline callbacks in unions stop the compiler (pending finding): they get namespaces
-                    # of their own (unioncb_batches) so that the rest of this namespace is still judged
-                    t = {'k': 'iface', 'name': 'Cb'}
                 members.append({'name': 'f%d' % j, 't': t})
             if level > 0 and members and not any(self.nests(m['t']) for m in members):
                 members[rng.randrange(len(members))]['t'] = {'k': 'iface', 'name': rng.choice(self.levels[level - 1])}
             d = {'d': kind, 'name': name, 'members': members}
-            if kind == 'struct' and members and rng.random() < self.weights.get('flex', 0.02):
+            if kind in ('struct', 'object', 'boxed') and members and rng.random() < self.weights.get('flex', 0.02):
                 members.append({'name': 'tail', 't': {'k': 'flex', 'of': rng.choice(['gchar', 'gint32', 'guint64', 'gdouble'])}})
                 d['no_nest'] = True
             self.decls.append(d)
@@ -597,7 +597,7 @@ class Gen(object):
         if r < 0.93:
             return {'k': 'basic', 'n': 'Al'}
         if r < 0.95:
-            return {'k': 'lenarray', 'of': rng.choice(['guint8', 'gint32'])}
+            return {'k': 'lenarray', 'of': rng.choice(['guint8', 'gint32'])} if rng.random() < 0.7 else {'k': 'strv'}
         if r < 0.95 + self.weights.get('nonintro', 0.015):
             return {'k': 'nonintro', 'c': rng.choice(['long double', 'struct _Opaque *', 'FILE *'.replace('FILE', 'struct _File')])}
         if r < 0.985:
@@ -617,7 +617,7 @@ class Gen(object):
                 return t
         if r < 0.50:
             el = self.leaf()
-            while el['k'] in ('cb', 'bits', 'barecb', 'nonintro', 'lenarray'):
+            while el['k'] in ('cb', 'bits', 'barecb', 'nonintro', 'lenarray', 'strv'):
                 el = self.leaf()
             n = rng.choice([0, 1, 2, 3, 3, 5, 7, 8, 16, 31, 100])
             if rng.random() < self.weights.get('bigarray', 0.012):
@@ -709,7 +709,7 @@ GRID_KINDS = (
      for n in BASIC_VALUE] +
     [('ptr-' + to.replace(':', '-'), {'k': 'ptr', 'to': to}, to in ('void', 'type:P3'))
      for to in ('void', 'utf8', 'filename', 'basic:gint32', 'basic:guint8', 'glist', 'type:P3', 'type:PU', 'type:Eu', 'type:Cb')] +
-    [('lenarray', {'k': 'lenarray', 'of': 'guint8'}, False),
+    [('lenarray', {'k': 'lenarray', 'of': 'guint8'}, False), ('strv', {'k': 'strv'}, False),
      ('enum-u32', _iv('Eu'), True), ('enum-neg', _iv('En'), True), ('flags', _iv('Fl'), True),
      ('callback-inline', {'k': 'cb'}, True), ('callback-typedef', _iv('Cb'), True),
      ('alias-basic', _b('Al'), True), ('alias-struct', _iv('AlS'), True),
@@ -775,8 +775,6 @@ def grid_batches(max_depth, per_ns=6):
                 n += 1
                 c = ctxs[0]
                 if len(ctxs) == 1:
-                    if c == 'U' and t['k'] == 'cb':
-                        return None       # inline callback in a union: pending finding, own stream
                     inner = t
                 else:
                     sub = build(ctxs[1:])
@@ -942,11 +940,6 @@ class Runner(object):
         self.cnt.hit('%s:compiler-stopped:%s' % (label, 'expected' if expected else 'UNEXPECTED'))
         if getattr(b, 'tag', None):
             self.cnt.hit('unknown-size:%s:compiler-stopped' % b.tag)
-        unioncb = [d for d in b.decls if d['d'] in ('union', 'boxed') and any(m['t']['k'] == 'cb' for m in d['members'])]
-        if unioncb and not expected and 'Caught NULL node' in log:
-            self.evals += 1
-            return ctx.report_failure(K_UNIONCB, 'g-ir-compiler exits %s on %s: %s' % (rc, key_of(b, unioncb[0])[:300], log[-200:]),
-                                      {'kind': 'batch', 'batch': dump_batch(b)})
         if not model_warn:
             self.corr('g-ir-compiler stopped (exit %s: %s) where the model predicts a typelib' % (rc, log[-200:]), b)
         if not expected:
@@ -1096,9 +1089,7 @@ class Runner(object):
             mod['stored']['offsets'] == got['offsets'] and (d['d'] == 'object' or (mod['stored']['size'] == got['size']
                                                                                     and mod['stored']['align'] == got['align']))
         key = None
-        if explained and 'flex' in fl:
-            key = K_FLEX
-        elif explained and 'nonintro_value' in fl:
+        if explained and 'nonintro_value' in fl:
             key = K_NONINTRO
         if key is not None:
             self.cnt.hit('%s:known-finding:%s:%s' % (label, key.split(':')[0], d['d']))
@@ -1121,7 +1112,8 @@ def is_unknown_layout(d, got, field_members):
         return True
     first = None
     for i, m in enumerate(field_members):
-        if m['t']['k'] in ('flex', 'nonintro'):
+        # the first member whose size is not known (a non-introspectable POINTER field has a known size)
+        if m['t']['k'] == 'flex' or (m['t']['k'] == 'nonintro' and not m['t']['c'].endswith('*')):
             first = i
             break
     if first is None:        # the unknown member is inside a nested type: at least one offset must be unknown
